@@ -249,6 +249,13 @@ async function handle(c) {
     switch (c.op) {
         case 'split': {
             try {
+                if (typeof csv_utils.smart_split !== 'function') {
+                    if (typeof csv_utils.split_quoted_str === 'function' && (c.policy === 'quoted' || c.policy === 'quoted_rfc')) {
+                        let r2 = csv_utils.split_quoted_str(c.line, c.dlm, !!c.preserve);
+                        return {fields: r2[0], warning: !!r2[1]};
+                    }
+                    return {skip: true};     // helper refactored away: the reader-level comparisons still decide
+                }
                 let r = csv_utils.smart_split(c.line, c.dlm, c.policy, !!c.preserve);
                 return {fields: r[0], warning: !!r[1]};
             } catch (e) { return {error: err_info(e)}; }
